@@ -1852,7 +1852,10 @@ def gen_poly(repo) -> Tuple[str, List[str]]:
             raise Unsupported(f"{cls}.{name} solves an LP but neither is static nor calls termlist_to_polytope: nothing names "
                               "the columns")
         fn = PFn(w, PTL if cls == "TermList" else cls, f, rty, assumptions, ghost)
-        body = fn.translate(params, None if static else "TL")
+        try:
+            body = fn.translate(params, None if static else "TL")
+        except Unsupported as ex:
+            body = P.function_stub("PolyGen.v", f"{cls}.{name}", ex)
         ps = ([("lp_vars", "LV")] if ghost else []) + ([] if static else [("self", "TL")]) \
             + [(cid(n), t) for n, t, _ in params]
         sig = " ".join(f"({n} : {coq_type(t)})" for n, t in ps)
